@@ -261,10 +261,60 @@ def oracle(disp, plan, ops, line):
             if (op == 'close:1' or op.startswith('exit')) and (r != 'None' or fields[i]['t'] != 'true'):
                 return 'C10', '%s did not leave the child terminated: %s %s' % ('close(force=True)' if op == 'close:1' else what, r, fields[i])
         if op == 'term:1' and (r != 'true' or fields[i]['t'] != 'true'):
-            return 'C10', 'terminate(force=True) returned %s, terminated=%s' % (r, fields[i]['t'])
+            return '*', 'terminate(force=True) returned %s, terminated=%s (the death it reports must also be recorded: %s)' % (r, fields[i]['t'], steps[i][1])
+        if op == 'term:0' and r == 'true' and fields[i]['t'] != 'true':
+            return '*', 'terminate() returned True but the object does not know the child\'s fate (%s)' % steps[i][1]
         if op in ('send', 'read') and any(o.startswith('close') for o in ops[:i]) and r == 'ok':
             return 'C10', '%s after close succeeded' % op
     return None
+
+
+def kill_faults(ctx, sigs):
+    """terminate() when sending the signal fails: (a) the child is gone by the time the signal is sent (it died between the liveness check and
+    os.kill: ESRCH) - terminate() says True and the fate is recorded; (b) the signal may not be sent (EPERM) - the child lives, terminate()
+    says False and nothing claims otherwise"""
+    import errno
+    real_kill = os.kill
+    for fault in ('ESRCH', 'EPERM'):
+        for force in (False, True):
+            ch = Child('', ('e', 0))
+            p = ch.p
+            state = dict(first=True)
+
+            def faulty(pid, sig, ch=ch, state=state):
+                if pid != ch.pid:
+                    return real_kill(pid, sig)
+                if fault == 'EPERM':
+                    raise PermissionError(errno.EPERM, 'Operation not permitted')
+                if state['first']:
+                    state['first'] = False
+                    real_kill(pid, signal.SIGKILL)           # the child dies right here, after the liveness check
+                    for _ in range(2000):
+                        if proc_state(pid) in ('Z', 'X'):
+                            break
+                        time.sleep(0.0005)
+                raise ProcessLookupError(errno.ESRCH, 'No such process')
+            os.kill = faulty
+            try:
+                with common.guard(30):
+                    ret = p.terminate(force=force)
+                out = (ret, bool(p.terminated), p.signalstatus)
+            except common.Stuck:
+                out = ('still blocked after 30 s',)
+            except Exception as e:      # noqa
+                out = ('raised %s' % type(e).__name__,)
+            finally:
+                os.kill = real_kill
+            want = (True, True, 9) if fault == 'ESRCH' else (False, False, None)
+            alive = proc_state(ch.pid) not in ('Z', 'X')
+            sigs.add(('kill-fault', fault, force))
+            ch.cleanup()
+            if out != want:
+                common.report(ctx, 'terminate/kill-fault/%s' % fault,
+                              'terminate(force=%s) while os.kill fails with %s (%s): (returned, terminated, signalstatus) = %r, expected %r' % (
+                                  force, fault, 'the child died between the liveness check and the signal' if fault == 'ESRCH' else 'the child keeps running',
+                                  out, want), dict(fault=fault, force=force, child_was_alive_afterwards=alive))
+                return
 
 
 def leak_check(ctx, n):
@@ -680,6 +730,7 @@ def run(ctx):
         popen_histories(ctx, sigs)
     else:
         leak_check(ctx, 12 if ctx.quick() else 200)
+        kill_faults(ctx, sigs)
         fd_socket_lifecycle(ctx, sigs)
         hostile_close(ctx, sigs)
     return common.finish(
